@@ -13,6 +13,7 @@ fn real_of(v: &Value) -> f64 {
     match v["c"].as_str().unwrap_or("") {
         "inf" => if v["m"].as_i64().unwrap_or(1) > 0 { f64::INFINITY } else { f64::NEG_INFINITY },
         "nan" => f64::NAN,
+        "nzero" => -0.0,
         _ => (v["m"].as_i64().unwrap_or(0) as f64) * 2f64.powi(v["e"].as_i64().unwrap_or(0) as i32),
     }
 }
@@ -21,6 +22,7 @@ fn real_lit(x: f64) -> String {
     if x.is_nan() { "1.0e308 10.0 * dup -".into() }
     else if x == f64::INFINITY { "1.0e308 10.0 *".into() }
     else if x == f64::NEG_INFINITY { "-1.0e308 10.0 *".into() }
+    else if x == 0.0 && x.is_sign_negative() { "-0.0".into() }
     else { format!("{:?}", x) }
 }
 fn same_real(got: f64, exp: f64) -> bool {
